@@ -4,7 +4,8 @@
 import sys, subprocess, json, os, shutil
 prop, k = sys.argv[1], sys.argv[2]
 src = "/tmp/seed/out/%s/%s" % (prop, k)
-r = subprocess.run(["/verif/tools/verify_seed.sh", src], capture_output=True, text=True)
+mode = sys.argv[3] if len(sys.argv) > 3 else "native"
+r = subprocess.run(["/verif/tools/verify_seed.sh", src, mode], capture_output=True, text=True)
 line = [l for l in r.stdout.splitlines() if l.startswith("{")][-1]
 v = json.loads(line)
 ok = v["applies"] == "ok" and v["suite_with_patch"] == "pass" and v["demo_without_patch"] == "pass" and v["demo_with_patch"] == "fail"
@@ -22,6 +23,7 @@ meta = {
     "source": "sub-agent that saw only the text of property %s and its own scratch worktree of /repo (nothing from /verif)" % prop,
     "needs_to_manifest": notes[:1200],
     "verified_by_me": {
+        "demo_mode": mode,
         "how": "tools/verify_seed.sh in a scratch worktree of /repo HEAD (outside /repo and /verif): git apply; cargo test --offline (pinned suite, guard off) with the patch; demo as tests/demo_seed.rs with and without the patch",
         "patch_applies": True, "suite_passes_with_patch": True, "demo_passes_without_patch": True, "demo_fails_with_patch": True,
     },
